@@ -194,14 +194,15 @@ fn ref_float(s: &str) -> Option<(bool, BigUint, BigUint)> {
 fn ref_sat_percentile(s: &str) -> Option<SatDenotation> {
   let number = s.strip_suffix('%')?;
   let (negative, num, den) = ref_float(number)?;
-  if negative && num != BigUint::from(0u8) {
-    return None;
-  }
   // value = num/den / 100 * LAST
-  Some(SatDenotation::Rational(
-    num * Sat::LAST.0,
-    den * 100u8,
-  ))
+  let (num, den) = (num * Sat::LAST.0, den * 100u8);
+  if negative && num != BigUint::from(0u8) {
+    // a negative percentage denotes a sat only in the sense in which
+    // 100.0000000000000001% denotes the last sat: its position is within
+    // one sat of a valid one (ord reads `-1E-400%` as -0.0)
+    return (num <= den).then_some(SatDenotation::Rational(BigUint::from(0u8), BigUint::from(1u8)));
+  }
+  Some(SatDenotation::Rational(num, den))
 }
 
 fn ref_sat_integer(s: &str) -> Option<u64> {
@@ -519,7 +520,7 @@ fn run_parser<T, E>(
   }
 }
 
-fn text_check(case: &TextCase, cx: &Cx) -> CheckResult {
+pub fn text_check(case: &TextCase, cx: &Cx) -> CheckResult {
   let input = case.input.as_str();
   let mut accepted = 0u32;
 
